@@ -496,6 +496,13 @@ def ambiguous_only_locus(w, gid, chrom, p, strand, n_reads=6):
     w.genes.append(g)
     for ex in reads:
         w.make_read(chrom, ex, truth={"src": gid + ".t1", "class": "partial-read-shared-by-all-isoforms"})
+    # the same partial reads with one junction misplaced by 2 bp (within every tolerance): the read's own intron is not an annotated one,
+    # its splice sites are not canonical, and without a tail its strand stays undefined
+    for k, ex in enumerate(reads[:3]):
+        # two exons only: the misplaced junction is the read's only intron
+        j = [(ex[0][0], ex[0][1] + (2 if k % 2 == 0 else -2)), (ex[1][0], ex[1][1] - 10 * k)] if strand == "+" else \
+            [(ex[1][0] + 10 * k, ex[1][1] + (2 if k % 2 == 0 else -2)), ex[2]]
+        w.make_read(chrom, j, truth={"src": gid + ".t1", "class": "partial-read-jittered-junction"})
     return g, p + 3700
 
 
